@@ -277,6 +277,46 @@ def run_lu(c, u):
                     ok = False
             if not ok:
                 break
+        # the packed variant UTPM.lu_factor (L strictly below the diagonal, U on and above it, LAPACK pivot vector) and the
+        # pivot-vector variant UTPM.lu2 satisfy the same identity
+        for fn in ('lu_factor', 'lu2'):
+            c.out['evals'] += P
+            c.out['keys'] += ['%s|%d|%d|%d' % (fn, N, D, u['lo'] + i) for i in range(P)]
+            x = UTPM(A.copy())
+            try:
+                if fn == 'lu_factor':
+                    LUf, PIV = UTPM.lu_factor(x)
+                    Ld = np.array([[np.tril(LUf.data[d, p], -1) + (np.eye(N) if d == 0 else 0) for p in range(P)] for d in range(D)])
+                    Ud = np.array([[np.triu(LUf.data[d, p]) for p in range(P)] for d in range(D)])
+                else:
+                    PIV, L2, U2 = UTPM.lu2(x)
+                    Ld, Ud = L2.data, U2.data
+            except Exception as ex:
+                c.fail('C08|%s|raises' % fn, dict(case, fn=fn), {'error': str(ex)[:160]})
+                continue
+            if not np.array_equal(x.data, A):
+                c.fail('C08|%s|operand modified' % fn, dict(case, fn=fn), {})
+                continue
+            for p in range(P):
+                cs = dict(case, fn=fn, direction=p, A0=A[0, p].tolist())
+                lu0, piv0 = scipy.linalg.lu_factor(A[0, p])
+                if not np.array_equal(np.asarray(PIV.data[0, p], dtype=int), piv0) or (D > 1 and np.any(PIV.data[1:, p] != 0)):
+                    c.fail('C08|%s|pivot vector differs from scipy.linalg.lu_factor' % fn, cs, {})
+                    break
+                if fn == 'lu_factor' and not np.allclose(LUf.data[0, p], lu0, atol=1e-12):
+                    c.fail('C08|lu_factor|zeroth coefficient differs from scipy.linalg.lu_factor', cs, {})
+                    break
+                Pm0 = algopy.utils.piv2mat(piv0)
+                Pser = np.zeros((D, N, N))
+                Pser[0] = Pm0
+                As, Ps, Ls, Us = L7.mser(A[:, p]), L7.mser(Pser), L7.mser(Ld[:, p]), L7.mser(Ud[:, p])
+                cond = np.linalg.cond(A[0, p])
+                ok = check_eq(c, fn, 'PLU=A', L7.ms_mul(Ps, L7.ms_mul(Ls, Us)), As, L7.ms_mul(L7.ms_abs(Ls), L7.ms_abs(Us)), cond, cs)
+                if ok and fn == 'lu2':
+                    ok = zero_part(c, fn, 'L lower triangular', Ls, np.triu(np.ones((N, N), dtype=bool), 1), 1.0 + float(np.abs(Ld[:, p]).max()), cond, cs)
+                    ok = ok and zero_part(c, fn, 'U upper triangular', Us, np.tril(np.ones((N, N), dtype=bool), -1), 1.0 + float(np.abs(Ud[:, p]).max()), cond, cs)
+                if not ok:
+                    break
 
 
 # ---------------------------------------------------------------- eigh on constructed curves
